@@ -16,6 +16,7 @@ def cmp_cond(op, d):
     """d: SNum difference. Returns Python bool when syntactically decided, else SBool."""
     from .sint import SBool
 
+    d = d.pruned()
     if d.is_const():
         c = d.const_value()
         if op == 'lt':
